@@ -940,7 +940,7 @@ func (context *layoutContext) remakePage(index int, rootBox bo.BlockLevelBoxITF,
 	pageType := utils.PageElement{Side: side, Blank: blank, First: first, Index: index, Name: nextPageName}
 	context.styleFor.SetPageComputedStylesT(pageType, html)
 
-	context.forcedBreak = tmp.InitialNextPage.Break != "any" || tmp.InitialNextPage.Page != ""
+	context.forcedBreak = tmp.InitialNextPage.Break != "any" || tmp.InitialNextPage.Page != "" || tmp.InitialNextPage.Named
 	context.marginClearance = false
 
 	// makePage wants a pageNumber of index + 1
